@@ -54,8 +54,9 @@ SendEv == /\ IsA("env.send") /\ Adv /\ L1Same /\ UNCHANGED knows /\ Ev.s \in Ses
           /\ (Ev.c = "auth" /\ Ev.p = "good") => knows      \* a right digest needs the cookie
           /\ Recv(Ev.s, Msg)
           \* a digest the node itself computed on another session and the adversary relayed
-          /\ dev' = (IF Reflected(Ev.s, Msg) THEN dev \cup {"DigestReflection"} ELSE dev)
-          /\ refl' = (IF Reflected(Ev.s, Msg) THEN refl \cup {Ev.s} ELSE refl)
+          /\ LET used == Reflected(Ev.s, Msg) /\ ss'[Ev.s].everOk /\ ~ss[Ev.s].everOk IN
+             /\ dev' = (IF used THEN dev \cup {"DigestReflection"} ELSE dev)
+             /\ refl' = (IF used THEN refl \cup {Ev.s} ELSE refl)
 
 Count(q, x) == Cardinality({i \in 1..Len(q) : q[i] = x})
 Range(q) == {q[i] : i \in 1..Len(q)}
